@@ -67,6 +67,8 @@ def gen(rng, n):
             out.append(S.gen_headkey_case(rng, crowd=rng.choice([rng.randint(7, 10), rng.randint(15, 23)])))
         elif g < 0.05:
             out.append(S.gen_raising_callback_case(rng))
+        elif g < 0.07:
+            out.append(S.gen_stale_key_case(rng))
         elif g < 0.30:
             out.append(S.gen_case(rng, "C11"))
         elif g < 0.50:
